@@ -194,6 +194,74 @@ class OmegaAdapter(Adapter):
         return obs.get('_bad', [])
 
 
+ORDER_WORKER = r'''
+import json, sys, warnings
+import numpy as np
+sys.path.insert(0, sys.argv[1])
+from harness.props.c11_omega import make
+job = json.load(open(sys.argv[2]))
+k = np.logspace(-3, 2, 23)
+out = []
+for kind, N, par in job:
+    try:
+        with warnings.catch_warnings():
+            warnings.simplefilter('ignore')
+            obj, env = make(kind, N, par)
+            with np.errstate(all='ignore'):
+                out.append((np.asarray(obj.calculate(np.array(k)), dtype=float) * np.ones(len(k))).tolist())
+    except Exception as ex:
+        out.append({'error': type(ex).__name__})
+json.dump(out, open(sys.argv[3], 'w'))
+'''
+
+
+def order_independence(ctx, edges, nmax_heavy):
+    """the value an object returns does not depend on which OTHER model objects were constructed and evaluated before it in
+    the same process: the same list of objects is evaluated in two fresh interpreters, forwards and backwards"""
+    import json
+    import os
+    import subprocess
+    from harness.core import REPO, VERIF
+    objs = []
+    for e in edges:
+        l = e['l']
+        if l['act'] != 'Construct' or l['raises'] != 'none':
+            continue
+        if l['kind'] in ('DiscreteKoyama', 'NonOverlappingFreelyJointedChain') and l['N'] > nmax_heavy:
+            continue
+        if l['N'] > 1000:
+            continue
+        objs.append([l['kind'], l['N'], l.get('par')])
+    objs.sort(key=lambda o: json.dumps(o))
+    res = []
+    wfile = os.path.join(ctx.tmp, 'omega_order_worker.py')
+    open(wfile, 'w').write(ORDER_WORKER)
+    for name, order in (('forward', objs), ('backward', objs[::-1])):
+        job, outp = os.path.join(ctx.tmp, 'omega_order_%s.json' % name), os.path.join(ctx.tmp, 'omega_order_%s_out.json' % name)
+        json.dump(order, open(job, 'w'))
+        env = dict(os.environ, PYTHONPATH=REPO + os.pathsep + VERIF)
+        p = subprocess.run(['/venv/bin/python', '-W', 'ignore', wfile, VERIF, job, outp], env=env, stdout=subprocess.PIPE, stderr=subprocess.STDOUT)
+        if p.returncode != 0:
+            raise MachineryError('order worker failed: ' + p.stdout.decode('utf-8', 'replace')[-800:])
+        res.append(json.load(open(outp)))
+    fwd, bwd = res[0], res[1][::-1]
+    for o, a, b in zip(objs, fwd, bwd):
+        ctx.count(('order', json.dumps(o)))
+        if isinstance(a, dict) or isinstance(b, dict):
+            if a != b:
+                ctx.violation('IndependentOfOtherObjects.%s' % o[0], {'family': 'order', 'action': 'Calculate', 'kind': o[0], 'N': o[1], 'par': o[2],
+                                                                     'forward': str(a)[:80], 'backward': str(b)[:80], 'detail': 'evaluation succeeds or fails depending on the objects evaluated before'})
+                return len(objs)
+            continue
+        a, b = np.array(a), np.array(b)
+        err = float(np.max(np.abs(a - b) / np.maximum(np.abs(a), 1e-300))) if np.all(np.isfinite(a)) and np.all(np.isfinite(b)) else (0.0 if np.array_equal(a, b, equal_nan=True) else 1.0)
+        if err > 1e-12:
+            ctx.violation('IndependentOfOtherObjects.%s' % o[0], {'family': 'order', 'action': 'Calculate', 'kind': o[0], 'N': o[1], 'par': o[2], 'rel_diff': err,
+                                                                 'detail': 'omega(k) of this object depends on which other model objects were evaluated before it in the process'})
+            return len(objs)
+    return len(objs)
+
+
 def exact_points(ctx, res, terms):
     """TLC's exact rationals: (i) validate the evaluator, (ii) the real classes at the k where E(k) is that rational"""
     import pyPRISM.omega as O
@@ -261,6 +329,8 @@ def run(ctx):
     ad = OmegaAdapter(ctx, terms, 40 if thorough else 12)
     w = Walker(ctx, g, ad, 'replay.OmegaModels')
     ne = w.cover_edges()
+    nord = order_independence(ctx, res.records['EDGE'], 12)
+    ctx.stage('order_independence', objects=nord)
     # histories on ONE object: Construct; Calculate(g1); Calculate(g2) [; Calculate(g3)] - an evaluation must not depend on earlier ones
     # (rejected constructions leave no object behind: they are self-loops of the initial state, covered by the edge pass above)
     gh = Graph([e for e in res.records['EDGE'] if not (e['l']['act'] == 'Construct' and e['l']['raises'] != 'none')], res.records.get('INIT'))
